@@ -53,7 +53,7 @@ class C02(Prop):
     LONG_BIAS = 0.5
     BACKENDS = ("file", "file", "memory")
     WEIGHTS = {"page": 5, "pages": 3, "links": 3, "batch": 2, "again": 1, "create": 2, "delete": 1, "addprefix": 1,
-               "rmprefix": 1, "move": 0, "rule": 1, "unrule": 0, "reopen": 1, "clear": 1}
+               "rmprefix": 1, "move": 0, "rule": 1, "unrule": 0, "reopen": 1, "clear": 1, "recreate": 1}
     QUICK = (40, 18)
     THOROUGH = (200, 40)
     EXHAUSTIVE_KEYS = ("permutation_histories",)
